@@ -170,6 +170,14 @@ def tlc_must_pass(workdir, module, cfg=None, **kw):
     return r
 
 
+def printed_set(out, tag):
+    """Parses <<"TAG", {1, 2, ...}>> printed by TLC (possibly wrapped over several lines) into a set of ints."""
+    m = re.search(r'<<\s*"%s",\s*\{([^}]*)\}\s*>>' % tag, out, re.S)
+    if not m:
+        raise Inconclusive("TLC did not print the %s report" % tag)
+    return {int(x) for x in m.group(1).replace("\n", " ").split(",") if x.strip()}
+
+
 def read_ndjson(path):
     out = []
     with open(path) as fh:
@@ -234,8 +242,9 @@ def go_test(workdir, pkg, mapping, run, env=None, timeout=900, tags="verif", arg
     rundir = os.path.join(workdir, "run")
     os.makedirs(rundir, exist_ok=True)
     try:
+        # stdin must be a character device: serverless sessions read a piped stdin instead of the file
         p = subprocess.run(cmd, cwd=rundir, env=goenv(env), stdout=subprocess.PIPE, stderr=subprocess.STDOUT,
-                           text=True, errors="replace", timeout=timeout + 30)
+                           stdin=open("/dev/null"), text=True, errors="replace", timeout=timeout + 30)
     except subprocess.TimeoutExpired:
         raise Inconclusive("harness timeout (%ss) %s %s" % (timeout, pkg, run))
     return p.returncode, p.stdout
